@@ -939,7 +939,7 @@ class InstructionCollection:
             raise NotImplementedError(str(bits))
 
         class shift_cl_base(X86Instruction):
-            rm = Operand("rm", rm_modes)
+            rm = Operand("rm", rm_modes, write=True)
             tokens = bit_tokens
             patterns = {"opcode": 0xD3}
             for k, v in extra_patterns.items():
@@ -1031,7 +1031,7 @@ CmpImm = make_regimm("cmp", 0x81, 7)
 
 
 class shift8_cl_base(X86Instruction):
-    rm = Operand("rm", rm8_modes)
+    rm = Operand("rm", rm8_modes, write=True)
     tokens = [RexToken, OpcodeToken, ModRmToken]
     patterns = {"opcode": 0xD2}
     opcode = 0xD2
